@@ -70,6 +70,10 @@ WithinOneUlp(a, b) == \/ a = b
                       \/ (FIsZero(a) /\ FIsZero(b))
                       \/ (FSign(a) = FSign(b) /\ (IncW(FMag(a)) = FMag(b) \/ IncW(FMag(b)) = FMag(a)))
                       \/ (FSign(a) # FSign(b) /\ ((FIsZero(a) /\ FMag(b) = One) \/ (FIsZero(b) /\ FMag(a) = One)))
+\* at most two units in the last place apart
+WithinTwoUlp(a, b) == \/ WithinOneUlp(a, b)
+                      \/ (FSign(a) = FSign(b) /\ (IncW(IncW(FMag(a))) = FMag(b) \/ IncW(IncW(FMag(b))) = FMag(a)))
+                      \/ (FSign(a) # FSign(b) /\ FMag(a) = One /\ FMag(b) = One)
 FLe(x, y) == FLt(x, y) \/ FEq(x, y)
 FAbsBits(b) == FMag(b)
 FIsFinite(b) == FExp(b) # 2047
